@@ -27,7 +27,9 @@
 // Trace: one line per numbered call, written with a single write(2) after the call returned:
 //        <idx> <name> <role> <arg> <result> <errno> <action|-> <path|->
 //   arg = byte count (read/write), offset (lseek), flags (open, fcntl F_SETFL), whence is appended for lseek as arg2 in
-//   the path column; errno is 0 when result >= 0.  For "kill" the line is written before dying (result "?").
+//   the path column; errno is 0 when result >= 0.  For "kill" the line is written before dying (result "?"); for
+//   signal/sigerr a line with result "?" is written before the signal is sent and a second line with the same index
+//   and the real result after the call (readers keep the last line per index).
 // The wrappers use only async-signal-safe functions (xz calls write() from its signal handler).
 #define _GNU_SOURCE
 #include <dlfcn.h>
@@ -283,6 +285,10 @@ static hit_t begin_call(const char *name, int role, long long arg, const char *p
 		}
 		if (h.action == A_SIGNAL || h.action == A_SIGERR) {
 			int saved = errno;
+			// The signal may terminate the process (default action before xz installed its handlers, or
+			// SIG_DFL restored at exit): leave a line with result "?" first; the line written after the call
+			// (same index) supersedes it.
+			trace(h.idx, name, role, arg, 0, 0, 0, h.text, path);
 			syscall(SYS_kill, (long)getpid(), (long)plan_signal);
 			errno = saved;
 		}
